@@ -84,6 +84,10 @@ struct Sim {
         uint64_t room = 0x100000000ull - a; if ((uint64_t)n > room) { n = (N)room; COUNT("probe.request_ends_at_last_address"); }
         return true;
     }
+    // a second task scheduled at a seam point: when the table's callbacks (area read / write, validator) are entered for the (intrude_at)-th time in the
+    // current op, a job on a second, unrelated table runs to completion first; neither table may see anything of the other
+    int64_t intrude_at = -1, intrude_arg = 0; uint64_t seam_calls_op = 0; bool intruded = false;
+    void maybe_intrude();
     int64_t cb_fail_in = -1;   // injected fault: the k-th callback access from now fails with an I/O error (-1 = none)
     bool cb_fault() { if (cb_fail_in < 0) return false; if (cb_fail_in-- == 0) { c.faults_fired++; COUNT("fault.callback_area_io_error"); return true; } return false; }
     // model
@@ -98,7 +102,7 @@ struct Sim {
     static RegisterAccess cb_read(const RegisterArea *a, RegisterAtom *dest, RegisterOffset off, RegisterOffset n) {
         Sim *s = g_sim; RegisterAccess rv = REG_ACCESS_RESULT_INIT;
         size_t i = (size_t)(a - s->areas);
-        s->c.ev(EV_AREA_RD, i, off, n); s->cb_reads++;
+        s->c.ev(EV_AREA_RD, i, off, n); s->cb_reads++; s->maybe_intrude();
         if (s->cb_fault()) { rv.code = REG_ACCESS_IO_ERROR; rv.address = off; return rv; }
         if (i >= s->cbstore.size() || (uint64_t)off + n > s->cbstore[i].size()) { s->cb_oob = true; rv.code = REG_ACCESS_IO_ERROR; return rv; }
         if (n) memcpy(dest, s->cbstore[i].data() + off, n * 2);
@@ -107,7 +111,7 @@ struct Sim {
     static RegisterAccess cb_write(RegisterArea *a, const RegisterAtom *src, RegisterOffset off, RegisterOffset n) {
         Sim *s = g_sim; RegisterAccess rv = REG_ACCESS_RESULT_INIT;
         size_t i = (size_t)(a - s->areas);
-        s->c.ev(EV_AREA_WR, i, off, n); s->cb_writes++; s->cb_writes_op++;
+        s->c.ev(EV_AREA_WR, i, off, n); s->cb_writes++; s->cb_writes_op++; s->maybe_intrude();
         if (s->cb_fault()) { rv.code = REG_ACCESS_IO_ERROR; rv.address = off; return rv; }
         if (i >= s->cbstore.size() || (uint64_t)off + n > s->cbstore[i].size()) { s->cb_oob = true; rv.code = REG_ACCESS_IO_ERROR; return rv; }
         if (n) memcpy(s->cbstore[i].data() + off, src, n * 2);
@@ -116,7 +120,7 @@ struct Sim {
     static bool cb_validate(const RegisterEntry *e, RegisterValue v) {
         Sim *s = g_sim;
         const RegSpec *r = (const RegSpec *)e->user;
-        s->c.ev(EV_VALIDATOR, (uint64_t)(r - s->spec.regs.data()), bits_of(v), 0);
+        s->c.ev(EV_VALIDATOR, (uint64_t)(r - s->spec.regs.data()), bits_of(v), 0); s->maybe_intrude();
         if ((int)v.type != r->type) return false;
         return cb_rule(*r, bits_of(v));
     }
@@ -252,6 +256,40 @@ struct Sim {
         return float_ok(r.type, b) && satisfies(r, b);
     }
 };
+
+// the second task (see Sim::maybe_intrude): a little table of its own in plain memory - initialise, typed sets and gets, a block write and a block read
+static void second_table_job(Ctx &c, int64_t arg) {
+    static RegisterAtom mem2[8];
+    RegisterArea areas2[2]; RegisterEntry entries2[5];
+    memset(areas2, 0, sizeof areas2); memset(entries2, 0, sizeof entries2);
+    areas2[0].read = reg_mem_read; areas2[0].write = reg_mem_write; areas2[0].flags = REG_AF_READABLE | REG_AF_WRITEABLE; areas2[0].base = 0x40; areas2[0].size = 8; areas2[0].mem = mem2;
+    entries2[0].type = REG_TYPE_UINT16; entries2[0].address = 0x40; entries2[0].default_value.u16 = 5; entries2[0].check.type = REGV_TYPE_RANGE; entries2[0].check.arg.range.min.u16 = 1; entries2[0].check.arg.range.max.u16 = 60000;
+    entries2[1].type = REG_TYPE_UINT32; entries2[1].address = 0x41; entries2[1].default_value.u32 = 7; entries2[1].check.type = REGV_TYPE_TRIVIAL;
+    entries2[2].type = REG_TYPE_SINT64; entries2[2].address = 0x43; entries2[2].default_value.s64 = -9; entries2[2].check.type = REGV_TYPE_MIN; entries2[2].check.arg.min.s64 = -1000000;
+    entries2[3].type = REG_TYPE_UINT16; entries2[3].address = 0x47; entries2[3].default_value.u16 = 1; entries2[3].check.type = REGV_TYPE_TRIVIAL;
+    entries2[4].type = REG_TYPE_INVALID;
+    RegisterTable t2; memset(&t2, 0, sizeof t2); t2.area = areas2; t2.entry = entries2;
+    const bool be = (arg & 1) != 0; register_make_bigendian(&t2, be);
+    RegisterInit ri = register_init(&t2);
+    const uint16_t v16 = (uint16_t)(1 + (arg >> 1) % 59999); const uint32_t v32 = (uint32_t)(arg * 2654435761u); const int64_t v64 = (int64_t)(arg * 40503) - 70000;
+    RegisterAccess a1 = register_set(&t2, 0, mkval(T_U16, v16)), a2 = register_set(&t2, 1, mkval(T_U32, v32)), a3 = register_set(&t2, 2, mkval(T_S64, (uint64_t)v64));
+    RegisterAccess a4 = register_set(&t2, 0, mkval(T_U16, 0));   // violates the range: must be refused
+    RegisterAtom w1[1] = {(RegisterAtom)(arg & 0xffff)}; RegisterAccess a5 = register_block_write(&t2, 0x47, 1, w1);
+    RegisterValue g0, g1, g2; RegisterAccess b0 = register_get(&t2, 0, &g0), b1 = register_get(&t2, 1, &g1), b2 = register_get(&t2, 2, &g2);
+    RegisterAtom rd[8]; RegisterAccess a6 = register_block_read(&t2, 0x40, 8, rd);
+    uint16_t want[8]; encode(T_U16, v16, be, want); encode(T_U32, v32, be, want + 1); encode(T_S64, (uint64_t)v64, be, want + 3); want[7] = w1[0];
+    bool ok = ri.code == REG_INIT_SUCCESS && a1.code == REG_ACCESS_SUCCESS && a2.code == REG_ACCESS_SUCCESS && a3.code == REG_ACCESS_SUCCESS && a4.code == REG_ACCESS_RANGE && a5.code == REG_ACCESS_SUCCESS
+           && b0.code == REG_ACCESS_SUCCESS && b1.code == REG_ACCESS_SUCCESS && b2.code == REG_ACCESS_SUCCESS && a6.code == REG_ACCESS_SUCCESS
+           && g0.value.u16 == v16 && g1.value.u32 == v32 && g2.value.s64 == v64 && memcmp(rd, want, sizeof want) == 0 && memcmp(mem2, want, sizeof want) == 0;
+    COUNT("probe.second_table_worked_during_a_callback");
+    if (!ok) c.fail("intruder.table", "a second table (byte order %s) that was initialised, set, block-written and read back while another table's callback was pending got wrong results (init %d, sets %d %d %d %d %d, gets %d %d %d, read %d)", be ? "big" : "little", (int)ri.code, (int)a1.code, (int)a2.code, (int)a3.code, (int)a4.code, (int)a5.code, (int)b0.code, (int)b1.code, (int)b2.code, (int)a6.code);
+}
+void Sim::maybe_intrude() {
+    if (intrude_at < 0 || intruded) { ++seam_calls_op; return; }
+    if ((int64_t)seam_calls_op++ != intrude_at) return;
+    intruded = true;
+    Sim *me = g_sim; second_table_job(c, intrude_arg); g_sim = me;
+}
 
 // ------------------------------------------------------------------------------------------------
 struct RegHarness : Harness {
@@ -574,7 +612,7 @@ struct RegHarness : Harness {
         Json ops = Json::arr();
         if (!ts.areas.empty()) {
             int n = (int)r.range(prop == "C04" ? 0 : 1, prop == "C04" ? 6 : (t.thorough() ? (r.chance(1, 8) ? 400 : 80) : 40));
-            for (int i = 0; i < n; ++i) ops.push(gen_op(r, prop, ts, kinds));
+            for (int i = 0; i < n; ++i) { Json o = gen_op(r, prop, ts, kinds); if (r.chance(1, 6)) { Json ij = Json::arr(); ij.push((long long)r.below(6)); ij.push((long long)r.below(1 << 20)); o["intrude"] = ij; } ops.push(o); }
         }
         p["ops"] = ops;
         return p;
@@ -729,6 +767,8 @@ struct RegHarness : Harness {
         };
         auto unchanged = [&](const char *why) { size_t ai, wi; if (!S.storage_matches_model(&ai, &wi)) { F("storage", "%s: word %zu of area %zu is 0x%04x, expected 0x%04x", why, wi, ai, S.actual(ai)[wi], S.M[ai][wi]); return false; } return true; };
         S.cb_writes_op = 0; S.cb_oob = false;
+        S.seam_calls_op = 0; S.intruded = false; S.intrude_at = -1;
+        if (o.has("intrude")) { const Json &ij = o.get("intrude"); S.intrude_at = ij.ati(0, 0); if (S.intrude_at < 0 || S.intrude_at > 64) S.intrude_at = 0; S.intrude_arg = ij.ati(1, 0) & 0xfffff; }
 
         if (op == "corrupt") {
             int64_t addr = o.geti("addr"); const Json &w = o.get("w");
